@@ -66,6 +66,14 @@ def gen_case(seed: int, prop: str, tier: str, fmt: str | None = None) -> dict:
         cops.append(["r", off, ln])
     case["cops"] = cops
     case["open"] = rng.choice(F.open_modes(cfg))
+    if rng.random() < 0.12 and nsectors * 512 <= (64 << 20):
+        # a twin: another image with the same geometry and the same identity fields (ids, UUIDs, CIDs - a backup copy or an
+        # earlier state of the same disk) but other content and another placement, opened and read first in the same process.
+        # Nothing the reader remembers about the twin may show through the image under test.
+        t_nops = rng.choice([2, 4, 8])
+        t_ops = gen.gen_layer_ops(rng, nsectors, unit, caps, t_nops, 700, F.has_below(cfg), F.hot_units(cfg), gran=sector // 512)
+        t_ops += [["w", op[1], op[2], 800 + j] for j, op in enumerate(ops) if op[0] == "w"][:6]  # the same ranges, other content
+        case["twin"] = {"ops": t_ops, "alloc": rng.choice(["seq", "logical", "rev", "perm", "gaps"]), "alloc_seed": rng.getrandbits(32)}
     return case
 
 
@@ -125,6 +133,8 @@ def run_case(case: dict) -> RunResult:
         return Violation(prop, klass, step, detail, dict(sig, klass=klass))
 
     with world.fs, monitored():
+        if case.get("twin"):
+            viol = _read_twin(case, world, F, v)
         try:
             with metered(STEP_LIMIT, "loop", world.step_allowance(STEP_LIMIT, 2.0, img.meta_bytes)):
                 stream = F.open(world, main, img, case["open"])
@@ -134,7 +144,7 @@ def run_case(case: dict) -> RunResult:
         except Exception as e:  # conformant image must open
             log.add("acquirer", "open", case["open"], "raised:" + type(e).__name__)
             viol = v("raised:" + type(e).__name__, log.seq, f"open raised {type(e).__name__}: {e}"[:300])
-        if viol is None and stream.size != size:
+        if viol is None and stream is not None and stream.size != size:
             viol = v("size", log.seq, f"size {stream.size} != stored {size}")
         if viol is None:
             sector = F.sector_size(case["cfg"])
@@ -182,6 +192,34 @@ def run_case(case: dict) -> RunResult:
     res.faults.update(world.faults_fired)
     res.extra["ledger"] = world.total_ledger()
     return res
+
+
+def _read_twin(case, world, F, v):
+    """Render, open and read the twin image (in its own directory of the same world); its content is checked as well."""
+    t = case["twin"]
+    tcfg = dict(case["cfg"], alloc=t["alloc"], alloc_seed=t["alloc_seed"])
+    tcase = dict(case, cfg=tcfg, ops=t["ops"])
+    layers, view = build_model(tcase)
+    img = F.render(tcfg, layers, view)
+    main = world.install(img, "twin")
+    size = view.n * 512
+    try:
+        with metered(STEP_LIMIT, "loop", world.step_allowance(STEP_LIMIT, 2.0, img.meta_bytes + (1 << 22))):
+            s = F.open(world, main, img, case["open"])
+            reqs = [[0, min(size, 1 << 20)], [max(0, size - 70000), 70000]] + [[op[1] * 512, min(op[2] * 512, 1 << 20)] for op in t["ops"] if op[0] == "w"][:8]
+            for off, ln in reqs:
+                s.seek(off)
+                got = s.read(ln)
+                world.log.add("client", "twin-r", [off, ln], got)
+                want = view.expected(off, ln)
+                if got != want:
+                    return v("twin-mismatch", world.log.seq, f"twin image, read({off}, {ln}): content differs from its own model")
+    except BudgetExceeded:
+        return v("budget", world.log.seq, "reading the twin image did not finish within the step budget")
+    except Exception as e:
+        return v("raised:" + type(e).__name__, world.log.seq, f"twin image raised {type(e).__name__}: {e}"[:300])
+    world.probes["twin_image_read_first"] = 1
+    return None
 
 
 def _state_key(case, view, off, ln, F):
